@@ -77,7 +77,11 @@ Theorem C15_date_order_orig_refuted :
   lt_of (date_partial_cmp_orig a b) = false /\ gt_of (date_partial_cmp_orig b a) = false.
 Proof. exact date_partial_cmp_orig_refuted. Qed.
 
-(* --- weekday: right inside chrono's year range; outside it the code answers null (known finding far-weekday) --- *)
+(* --- weekday (after the fix: the day number is computed by the code itself): the calendar's weekday for every year;
+   the original went through chrono and answered null outside its year range --- *)
+Theorem C15_weekday : forall a, valid3 a = true -> weekday_impl a = weekday_spec a.
+Proof. exact weekday_impl_correct. Qed.
+
 Theorem C15_weekday_in_range : forall a, chrono_date3 a = true -> weekday_orig a = weekday_spec a.
 Proof. exact weekday_orig_in_range. Qed.
 
@@ -170,6 +174,7 @@ Print Assumptions C15_date_from_numbers_orig_refuted.
 Print Assumptions C15_date_order.
 Print Assumptions C15_date_order_total.
 Print Assumptions C15_date_order_orig_refuted.
+Print Assumptions C15_weekday.
 Print Assumptions C15_weekday_in_range.
 Print Assumptions C15_weekday_far_refuted.
 Print Assumptions C15_ym_duration.
